@@ -154,6 +154,12 @@ Proof.
   cbn [last_opt]. exact IH.
 Qed.
 
+Lemma last_opt_some {A} (l : list A) : l <> [] -> exists x, last_opt l = Some x.
+Proof.
+  induction l as [|a l IH]; [congruence|]. intros _. destruct l as [|b l']; [exists a; reflexivity|].
+  destruct IH as (x & Hx); [discriminate|]. exists x. exact Hx.
+Qed.
+
 Lemma flat_map_app_last {A B} (f : A -> list B) l x : flat_map f (l ++ [x]) = flat_map f l ++ f x.
 Proof. rewrite flat_map_app. cbn. rewrite app_nil_r. reflexivity. Qed.
 
@@ -177,3 +183,350 @@ Proof.
     rewrite map_app, map_app. cbn [map fst]. rewrite flat_map_app_last.
     rewrite last_opt_app; [exact Hy|]. apply kept_nonempty. exact (co_inv _ _ _ _ _ Hc).
 Qed.
+
+(* ---------- order facts ---------- *)
+Lemma lex_total a b : lex_cmp a b = Lt \/ a = b \/ lex_cmp b a = Lt.
+Proof.
+  destruct (lex_cmp a b) eqn:E; [right; left; apply lex_cmp_eq; exact E|left; reflexivity|].
+  right; right. rewrite lex_cmp_antisym, E. reflexivity.
+Qed.
+
+Lemma label_lt_lex big a b w :
+  Forall (fun x => x < 16) a -> Forall (fun x => x < 16) b ->
+  firstn w a = firstn w b -> label_at big a w < label_at big b w -> lex_cmp a b = Lt.
+Proof.
+  intros Fa Fb Hp Hl. destruct (lex_total a b) as [H|[H|H]]; [exact H|subst; lia|].
+  pose proof (label_mono big b a w Fb Fa (eq_sym Hp) H). lia.
+Qed.
+
+Lemma lex_firstn_lt : forall n x y, lex_cmp (firstn n x) (firstn n y) = Lt -> lex_cmp x y = Lt.
+Proof.
+  induction n as [|n IH]; intros x y H; [cbn in H; discriminate|].
+  destruct x as [|a x], y as [|b y]; cbn in H |- *; try discriminate; try reflexivity.
+  destruct (Nat.compare a b); try discriminate; [apply IH; exact H|reflexivity].
+Qed.
+
+Lemma lex_firstn_gt : forall n x y, lex_cmp (firstn n x) (firstn n y) = Gt -> lex_cmp x y = Gt.
+Proof.
+  induction n as [|n IH]; intros x y H; [cbn in H; discriminate|].
+  destruct x as [|a x], y as [|b y]; cbn in H |- *; try discriminate; try reflexivity.
+  destruct (Nat.compare a b); try discriminate; [apply IH; exact H|reflexivity].
+Qed.
+
+(* ---------- agreement of a query with a subset ---------- *)
+Definition agree (s : subset) (n : nat) (qn : list nat) : Prop :=
+  n <= length qn /\ forall a, In a (s_ents s) -> firstn n (e_nibs a) = firstn n qn.
+
+Definition justified (o : opts) (s : subset) (qn : list nat) : Prop :=
+  (exists e, In e (s_ents s) /\ e_nibs e = qn) \/ o_inner o = true.
+
+Lemma firstn_le_agree {A} (a b : list A) n m : m <= n -> firstn n a = firstn n b -> firstn m a = firstn m b.
+Proof.
+  intros Hle H.
+  assert (forall l : list A, firstn m l = firstn m (firstn n l)) as E
+    by (intros l; rewrite firstn_firstn; f_equal; lia).
+  rewrite (E a), (E b), H. reflexivity.
+Qed.
+
+Lemma advance3_cases o isbig s big step pfx labels kids b' qn :
+  SubInv s ->
+  process_subset o isbig s = Ok (DInner big step pfx labels kids, b') ->
+  agree s (s_from s) qn -> justified o s qn ->
+  (advance3 qn (length qn) (s_from s) step pfx = AEq (sub_w big s) /\ agree s (sub_w big s) qn) \/
+  (advance3 qn (length qn) (s_from s) step pfx = ALt /\ forall a, In a (s_ents s) -> lex_cmp qn (e_nibs a) = Lt) \/
+  (advance3 qn (length qn) (s_from s) step pfx = AGt /\ forall a, In a (s_ents s) -> lex_cmp (e_nibs a) qn = Lt).
+Proof.
+  intros I Hp [Hfl Hag] J. pose proof (process_inner_inv _ _ _ _ _ _ _ _ _ Hp) as Hinv. cbv zeta in Hinv.
+  destruct Hinv as ((e0 & e1 & r & Es & Hpfx) & Hw & _ & _ & Hstep & _).
+  set (w := sub_w big s) in *.
+  assert (2 <= length (s_ents s)) as Htwo by (rewrite Es; cbn; lia).
+  assert (In e0 (s_ents s)) as He0 by (rewrite Es; left; reflexivity).
+  pose proof (sub_w_len big s e0 Htwo He0) as Hle0. fold w in Hle0.
+  set (f := even_down (s_from s)) in *.
+  assert (f <= s_from s) as Hf by apply even_down_le.
+  set (p := firstn (w - f) (skipn f (e_nibs e0))) in *.
+  assert (length p = w - f) as Lp by (unfold p; rewrite firstn_length, skipn_length; lia).
+  assert (forall a, In a (s_ents s) -> firstn (w - f) (skipn f (e_nibs a)) = p) as Hpa.
+  { intros a Ha. unfold p. apply firstn_skipn_agree; [apply sub_w_agree; assumption|lia]. }
+  destruct J as [(e & He & Heq)|Hinner].
+  - (* the query is an entry of the subset *)
+    left. assert (agree s w qn) as Hagw.
+    { split; [rewrite <- Heq; apply sub_w_len; assumption|].
+      intros a Ha. rewrite <- Heq. apply sub_w_agree; assumption. }
+    split; [|exact Hagw]. destruct Hagw as [Hwl _].
+    unfold advance3. fold f. destruct (o_inner o && (0 <? w - s_from s)) eqn:Ec.
+    + subst pfx. unfold cmp_upto. fold f. rewrite Lp. rewrite <- Heq, (Hpa e He), lex_cmp_refl. f_equal. lia.
+    + subst pfx step. cbv zeta.
+      assert (s_from s + (if o_inner o then 0 else w - s_from s) = w) as ->.
+      { destruct (o_inner o); cbn [andb] in Ec; [|lia]. apply Nat.ltb_ge in Ec. lia. }
+      destruct (Nat.ltb_spec (length qn) w); [lia|reflexivity].
+  - (* inner prefixes are stored *)
+    rewrite Hinner in Hpfx, Hstep. cbn [andb] in Hpfx. subst step.
+    unfold advance3. fold f. destruct (0 <? w - s_from s) eqn:Ec; subst pfx.
+    + unfold cmp_upto. fold f. rewrite Lp.
+      assert (forall a, In a (s_ents s) -> firstn f (e_nibs a) = firstn f qn) as Hagf
+        by (intros a Ha; eapply firstn_le_agree; [exact Hf|apply Hag; exact Ha]).
+      destruct (lex_cmp (firstn (w - f) (skipn f qn)) p) eqn:Ecmp.
+      * left. apply lex_cmp_eq in Ecmp.
+        assert (w <= length qn) as Hwl.
+        { assert (length (firstn (w - f) (skipn f qn)) = w - f) as L by (rewrite Ecmp; exact Lp).
+          rewrite firstn_length, skipn_length in L. lia. }
+        split; [f_equal; lia|]. split; [exact Hwl|].
+        intros a Ha. replace w with (f + (w - f)) by lia. rewrite !firstn_add.
+        rewrite (Hagf a Ha), (Hpa a Ha), Ecmp. reflexivity.
+      * right; left. split; [reflexivity|]. intros a Ha.
+        rewrite (lex_cmp_skipn f qn (e_nibs a)) by (symmetry; apply Hagf; exact Ha).
+        apply (lex_firstn_lt (w - f)). rewrite (Hpa a Ha). exact Ecmp.
+      * right; right. split; [reflexivity|]. intros a Ha.
+        rewrite lex_cmp_antisym.
+        rewrite (lex_cmp_skipn f qn (e_nibs a)) by (symmetry; apply Hagf; exact Ha).
+        rewrite (lex_firstn_gt (w - f) (skipn f qn) (skipn f (e_nibs a))); [reflexivity|].
+        rewrite (Hpa a Ha). exact Ecmp.
+    + left. apply Nat.ltb_ge in Ec. assert (w = s_from s) as Ew by lia.
+      cbv zeta. rewrite Nat.add_0_r. destruct (Nat.ltb_spec (length qn) (s_from s)); [lia|].
+      rewrite Ew. split; [reflexivity|]. split; assumption.
+Qed.
+
+(* ---------- searchID splits the kept entries around the query ---------- *)
+Section SearchSplit.
+  Variable o : opts.
+  Variable qn : list nat.
+  Hypothesis q16 : Forall (fun x => x < 16) qn.
+  Hypothesis qeven : Nat.even (length qn) = true.
+
+  Definition lt_q (x : ent) : Prop := lex_cmp (e_nibs x) qn = Lt.
+  Definition gt_q (x : ent) : Prop := lex_cmp qn (e_nibs x) = Lt.
+
+  Definition Lok (lc' : option tree) (B : list ent) (lc : option tree) : Prop :=
+    match last_opt B with
+    | Some x => exists n, lc' = Some n /\ leaf_eidx (rightmost n) = Some (e_idx x)
+    | None => lc' = lc
+    end.
+  Definition Rok (rc' : option tree) (A : list ent) (rc : option tree) : Prop :=
+    match hd_opt A with
+    | Some x => exists n, rc' = Some n /\ leaf_eidx (leftmost n) = Some (e_idx x)
+    | None => rc' = rc
+    end.
+
+  (* the leaf the descent stopped at, for entry x *)
+  Definition hit (x : ent) (c : tree) (i : nat) (v : bool) : Prop :=
+    (exists id ord, c = Leaf id ord (leaf_tail o x i) (e_idx x)) /\
+    i <= length qn /\ i <= length (e_nibs x) /\ firstn i (e_nibs x) = firstn i qn /\
+    (v = false -> i = length qn /\ i = length (e_nibs x)).
+
+  Definition Split (K : list ent) (lc rc : option tree) (r : sres) : Prop :=
+    exists B A, Lok (fst (fst r)) B lc /\ Rok (snd r) A rc /\ Forall lt_q B /\ Forall gt_q A /\
+      match seq r with
+      | None => K = B ++ A
+      | Some (c, i, v) => exists x, K = B ++ x :: A /\ e_keep x = true /\ hit x c i v
+      end.
+
+  Lemma kid_entries_lt s big lb :
+    SubInv s -> agree s (sub_w big s) qn -> lb < label_at big qn (sub_w big s) ->
+    Forall lt_q (kept (mk_kid s big lb)).
+  Proof.
+    intros I [_ Hag] Hlt. rewrite Forall_forall. intros a Ha. unfold kept, mk_kid in Ha. cbn [s_ents] in Ha.
+    apply filter_In in Ha. destruct Ha as [Ha _]. apply filter_In in Ha. destruct Ha as [Ha Hl]. apply Nat.eqb_eq in Hl.
+    pose proof (si_ok s I) as Hok. rewrite Forall_forall in Hok.
+    unfold lt_q. apply (label_lt_lex big _ _ (sub_w big s)); [apply ent_ok_lt16; auto|exact q16|apply Hag; exact Ha|].
+    unfold ent_label in Hl. lia.
+  Qed.
+
+  Lemma kid_entries_gt s big lb :
+    SubInv s -> agree s (sub_w big s) qn -> label_at big qn (sub_w big s) < lb ->
+    Forall gt_q (kept (mk_kid s big lb)).
+  Proof.
+    intros I [_ Hag] Hlt. rewrite Forall_forall. intros a Ha. unfold kept, mk_kid in Ha. cbn [s_ents] in Ha.
+    apply filter_In in Ha. destruct Ha as [Ha _]. apply filter_In in Ha. destruct Ha as [Ha Hl]. apply Nat.eqb_eq in Hl.
+    pose proof (si_ok s I) as Hok. rewrite Forall_forall in Hok.
+    unfold gt_q. apply (label_lt_lex big _ _ (sub_w big s)); [exact q16|apply ent_ok_lt16; auto|symmetry; apply Hag; exact Ha|].
+    unfold ent_label in Hl. lia.
+  Qed.
+
+  Lemma Lok_base prev done lc :
+    match last_opt done with
+    | Some x => exists n, prev = Some n /\ leaf_eidx (rightmost n) = Some (e_idx x)
+    | None => prev = None
+    end -> Lok (or_else prev lc) done lc.
+  Proof.
+    unfold Lok. destruct (last_opt done) as [x|].
+    - intros (n & -> & H). exists n. split; [reflexivity|exact H].
+    - intros ->. reflexivity.
+  Qed.
+
+  Lemma hd_opt_app {A} (a b : list A) : a <> [] -> hd_opt (a ++ b) = hd_opt a.
+  Proof. destruct a; [congruence|reflexivity]. Qed.
+
+  Lemma search_go_split s big labels lc rc kf :
+    SubInv s -> agree s (sub_w big s) qn ->
+    forall ch done prev,
+      Forall (ChildOK o s big labels) ch ->
+      StronglySorted lt (map fst ch) ->
+      Forall lt_q done ->
+      match last_opt done with
+      | Some x => exists n, prev = Some n /\ leaf_eidx (rightmost n) = Some (e_idx x)
+      | None => prev = None
+      end ->
+      (forall c lc' rc', In (label_at big qn (sub_w big s), c) ch ->
+         Split (kept (mk_kid s big (label_at big qn (sub_w big s)))) lc' rc' (kf c lc' rc')) ->
+      Split (done ++ flat_map (fun p => kept (mk_kid s big (fst p))) ch) lc rc
+            (search_go (label_at big qn (sub_w big s)) lc rc kf ch prev).
+  Proof.
+    intros I Hag. set (lbq := label_at big qn (sub_w big s)).
+    induction ch as [|[x c] rest IH]; intros done prev Hch Hsort Hdone Hprev Hk.
+    - cbn [search_go flat_map]. rewrite app_nil_r. exists done, []. cbn [fst snd seq].
+      split; [apply Lok_base; exact Hprev|]. split; [reflexivity|]. split; [exact Hdone|]. split; [constructor|].
+      unfold seq; cbn. rewrite app_nil_r. reflexivity.
+    - inversion Hch as [|? ? Hc Hrest]; subst. cbn [map fst] in Hsort. inversion Hsort as [|? ? Hsort' Hgt]; subst.
+      rewrite Forall_forall in Hgt. cbn [fst snd] in *.
+      pose proof (co_inv _ _ _ _ _ Hc) as Ik. cbn [fst] in Ik.
+      pose proof (kept_nonempty _ Ik) as Hkne.
+      assert (Forall gt_q (flat_map (fun p => kept (mk_kid s big (fst p))) rest) \/ True) as _ by (right; exact Logic.I).
+      assert (forall y, lbq <= x -> In y (map fst rest) -> Forall gt_q (kept (mk_kid s big y))) as Hrest_gt.
+      { intros y Hle Hy. apply kid_entries_gt; [exact I|exact Hag|]. specialize (Hgt y Hy). fold lbq. lia. }
+      assert (lbq <= x -> Forall gt_q (flat_map (fun p => kept (mk_kid s big (fst p))) rest)) as Hrest_all.
+      { intros Hle. apply Forall_forall. intros a Ha. apply in_flat_map in Ha. destruct Ha as ([y c'] & Hy & Ha).
+        cbn [fst] in Ha. assert (In y (map fst rest)) as Hy' by (apply (in_map fst) in Hy; exact Hy).
+        pose proof (Hrest_gt y Hle Hy') as Hf. rewrite Forall_forall in Hf. apply Hf. exact Ha. }
+      cbn [search_go flat_map fst].
+      destruct (Nat.ltb_spec x lbq) as [Hlt|Hge].
+      + (* this child is below the query: it becomes the left candidate *)
+        rewrite app_assoc. apply IH; try assumption.
+        * apply Forall_app. split; [exact Hdone|]. apply kid_entries_lt; assumption.
+        * rewrite last_opt_app by exact Hkne.
+          destruct (rightmost_last o c _ (co_trie _ _ _ _ _ Hc) Ik) as (y & Hy & Hl). cbn [fst snd] in *.
+          rewrite Hy. exists c. split; [reflexivity|exact Hl].
+        * intros c0 lc' rc' Hin. apply Hk. right. exact Hin.
+      + destruct (Nat.eqb_spec x lbq) as [Heq|Hne].
+        * (* the child of the query's label *)
+          subst x.
+          set (rc'' := match rest with (_, c') :: _ => Some c' | [] => rc end).
+          destruct (Hk c (or_else prev lc) rc'' (or_introl eq_refl)) as (Bk & Ak & HL & HR & HB & HA & Hseq).
+          exists (done ++ Bk), (Ak ++ flat_map (fun p => kept (mk_kid s big (fst p))) rest).
+          split; [|split; [|split; [|split]]].
+          -- unfold Lok in *. destruct Bk as [|b0 br].
+             ++ rewrite app_nil_r. cbn [last_opt] in HL. rewrite HL. apply Lok_base. exact Hprev.
+             ++ rewrite last_opt_app by discriminate.
+                destruct (last_opt_some (b0 :: br)) as (y0 & Hy0); [discriminate|]. rewrite Hy0 in HL |- *. exact HL.
+          -- unfold Rok in *. destruct Ak as [|a0 ar].
+             ++ cbn [app hd_opt] in HR |- *. rewrite HR. unfold rc''.
+                destruct rest as [|[y c'] rest']; [reflexivity|].
+                cbn [flat_map fst]. inversion Hrest as [|? ? Hc' _]; subst.
+                pose proof (co_inv _ _ _ _ _ Hc') as Ik'. cbn [fst] in Ik'.
+                rewrite hd_opt_app by (apply kept_nonempty; exact Ik').
+                destruct (leftmost_first o c' _ (co_trie _ _ _ _ _ Hc') Ik') as (z & Hz & Hl). cbn [fst snd] in *.
+                rewrite Hz. exists c'. split; [reflexivity|exact Hl].
+             ++ cbn [app hd_opt] in HR |- *. exact HR.
+          -- apply Forall_app. split; assumption.
+          -- apply Forall_app. split; [exact HA|]. apply Hrest_all. lia.
+          -- destruct (seq (kf c (or_else prev lc) rc'')) as [[[c1 i1] v1]|].
+             ++ destruct Hseq as (x0 & HK & Hkeep & Hhit). exists x0. split; [|split; assumption].
+                rewrite HK. rewrite <- !app_assoc. reflexivity.
+             ++ rewrite Hseq. rewrite <- !app_assoc. reflexivity.
+        * (* no child carries the query's label: this child is the right candidate *)
+          exists done, (kept (mk_kid s big x) ++ flat_map (fun p => kept (mk_kid s big (fst p))) rest).
+          cbn [fst snd]. split; [apply Lok_base; exact Hprev|]. split; [|split; [exact Hdone|split]].
+          -- unfold Rok. rewrite hd_opt_app by exact Hkne.
+             destruct (leftmost_first o c _ (co_trie _ _ _ _ _ Hc) Ik) as (z & Hz & Hl). cbn [fst snd] in *.
+             rewrite Hz. exists c. split; [reflexivity|exact Hl].
+          -- apply Forall_app. split; [apply kid_entries_gt; [exact I|exact Hag|fold lbq; lia]|apply Hrest_all; lia].
+          -- unfold seq. cbn. reflexivity.
+  Qed.
+
+  (* agreement carries over to the child of the query's label *)
+  Lemma agree_kid s big lb :
+    SubInv s -> 2 <= length (s_ents s) -> agree s (sub_w big s) qn ->
+    lb = label_at big qn (sub_w big s) -> lb <> 0 ->
+    agree (mk_kid s big lb) (sub_w big s + wsize big) qn.
+  Proof.
+    intros I Htwo [Hwl Hag] Hlb Hnz.
+    pose proof (si_ok s I) as Hok. rewrite Forall_forall in Hok.
+    set (w := sub_w big s) in *.
+    assert (Hevq : big = true -> Nat.even (length qn - w) = true).
+    { intros ->. pose proof (sub_w_even s) as H. fold w in H. rewrite Nat.even_sub by assumption. rewrite H, qeven. reflexivity. }
+    split.
+    - destruct (label_eq_firstn big qn qn w q16 q16 eq_refl) as (_ & H & _); [intros Hb; split; apply Hevq; exact Hb|reflexivity|lia|exact H].
+    - intros a Ha. unfold mk_kid in Ha. cbn [s_ents] in Ha. apply filter_In in Ha. destruct Ha as [Ha Hl].
+      apply Nat.eqb_eq in Hl. unfold ent_label in Hl. fold w in Hl.
+      destruct (label_eq_firstn big (e_nibs a) qn w) as (H1 & _ & _); [apply ent_ok_lt16; auto|exact q16|apply Hag; exact Ha| |lia|lia|exact H1].
+      intros Hb. split; [|apply Hevq; exact Hb]. subst big.
+      pose proof (sub_w_even s) as H. fold w in H.
+      pose proof (ent_ok_even a (Hok a Ha)). pose proof (sub_w_len true s a Htwo Ha) as Hl2. fold w in Hl2.
+      rewrite Nat.even_sub by assumption. rewrite H, H0. reflexivity.
+  Qed.
+
+  Lemma search_down_split : forall t s,
+    trie_of o t s -> SubInv s -> agree s (s_from s) qn -> justified o s qn ->
+    forall lc rc, Split (kept s) lc rc (search_down qn (length qn) t (s_from s) lc rc).
+  Proof.
+    induction t as [id ord tail eidx|id big step pfx fc ch IH] using tree_ind'; intros s Ht I Hag J lc rc.
+    - cbn [trie_of] in Ht. destruct Ht as (e & Hs & -> & ->).
+      cbn [search_down]. exists [], []. cbn [fst snd]. unfold Lok, Rok, seq. cbn [last_opt hd_opt fst snd].
+      split; [reflexivity|]. split; [reflexivity|]. split; [constructor|]. split; [constructor|].
+      exists e. rewrite (kept_singleton s e I Hs). split; [reflexivity|].
+      destruct (si_kept s I) as (e' & He' & Hk). rewrite Hs in He'. destruct He' as [<-|[]].
+      split; [exact Hk|]. destruct Hag as [Hfl Hagf].
+      assert (In e (s_ents s)) as He by (rewrite Hs; left; reflexivity).
+      repeat split; eauto; try discriminate. apply (si_len s I); exact He.
+    - pose proof Ht as Ht0. cbn [trie_of] in Ht. destruct Ht as (ib & labels & kids & b' & Hp & Hfst & Hkm).
+      pose proof (inner_facts _ _ _ _ _ _ _ _ _ I Hp) as F.
+      pose proof (children_ok o s big labels kids ch I F Hfst Hkm) as Hch.
+      rewrite search_down_inner.
+      destruct (advance3_cases _ _ _ _ _ _ _ _ _ qn I Hp Hag J) as [[Ea Hagw]|[[Ea Hall]|[Ea Hall]]]; rewrite Ea.
+      + (* descend into the children *)
+        pose proof (search_go_split s big labels lc rc
+                      (fun c lc' rc' => if Nat.eqb (sub_w big s) (length qn) then (lc', Some (c, sub_w big s, false), rc')
+                                        else search_down qn (length qn) c (sub_w big s + wsize big) lc' rc')
+                      I Hagw ch [] None Hch) as G.
+        cbn [app] in G.
+        assert (kept s = flat_map (fun p => kept (mk_kid s big (fst p))) ch) as ->.
+        { rewrite (kept_partition o s big labels kids I F), (if_kids_mk _ _ _ _ _ F), <- Hfst, !flat_map_map. reflexivity. }
+        apply G; clear G.
+        * rewrite Hfst. apply (if_asc _ _ _ _ _ F).
+        * constructor.
+        * reflexivity.
+        * intros c lc' rc' Hin.
+          set (w := sub_w big s) in *. set (lbq := label_at big qn w) in *.
+          rewrite Forall_forall in Hch. pose proof (Hch _ Hin) as Hc. cbn [fst snd] in Hc.
+          pose proof (co_inv _ _ _ _ _ Hc) as Ik. pose proof (co_trie _ _ _ _ _ Hc) as Htc. cbn [fst snd] in Ik, Htc.
+          destruct Hagw as [Hwl Hagw'].
+          destruct (Nat.eqb_spec w (length qn)) as [Heq|Hne].
+          -- (* the query ends at this node: end-of-key child *)
+             assert (lbq = 0) as Hz by (apply (label_zero_iff big qn w Hwl); exact Heq).
+             assert (exists n, nth_error labels n = Some 0) as (n & Hn).
+             { apply In_nth_error. rewrite <- Hz. exact (co_in _ _ _ _ _ Hc). }
+             destruct (label0_singleton o s big labels kids (mk_kid s big 0) n I F Hn) as (x0 & Hx0).
+             { rewrite (if_kids_mk _ _ _ _ _ F), nth_error_map, Hn. reflexivity. }
+             rewrite Hz in Htc, Ik |- *.
+             destruct (singleton_leaf o c _ x0 Htc Hx0) as (id' & ord' & ->).
+             exists [], []. cbn [fst snd]. unfold Lok, Rok, seq. cbn [last_opt hd_opt fst snd].
+             split; [reflexivity|]. split; [reflexivity|]. split; [constructor|]. split; [constructor|].
+             exists x0. rewrite (kept_singleton _ x0 Ik Hx0). split; [reflexivity|].
+             destruct (si_kept _ Ik) as (e' & He' & Hk). rewrite Hx0 in He'. destruct He' as [<-|[]].
+             split; [exact Hk|].
+             assert (In x0 (s_ents s) /\ ent_label big w x0 = 0) as [Hx0s Hx0l].
+             { assert (In x0 (s_ents (mk_kid s big 0))) as H by (rewrite Hx0; left; reflexivity).
+               unfold mk_kid in H. cbn [s_ents] in H. apply filter_In in H. destruct H as [H1 H2]. apply Nat.eqb_eq in H2. auto. }
+             assert (w = length (e_nibs x0)) as Hlen.
+             { apply (label_zero_iff big (e_nibs x0) w); [apply sub_w_len; [apply (if_two _ _ _ _ _ F)|exact Hx0s]|exact Hx0l]. }
+             unfold hit. cbn [mk_kid s_from label_width]. rewrite Nat.add_0_r. fold w.
+             split; [eauto|]. split; [lia|]. split; [lia|]. split; [apply Hagw'; exact Hx0s|]. intros _. split; [exact Heq|exact Hlen].
+          -- assert (lbq <> 0) as Hnz by (intros Hz; apply Hne; apply (label_zero_iff big qn w Hwl); exact Hz).
+             assert (label_width big lbq = wsize big) as Hwd by (destruct lbq; [congruence|reflexivity]).
+             assert (s_from (mk_kid s big lbq) = w + wsize big) as Hfk by (cbn [mk_kid s_from]; fold w; rewrite Hwd; reflexivity).
+             rewrite <- Hfk. rewrite Forall_forall in IH. apply (IH _ Hin _ Htc Ik).
+             ++ rewrite Hfk. apply agree_kid; [exact I|apply (if_two _ _ _ _ _ F)|split; assumption|reflexivity|exact Hnz].
+             ++ destruct J as [(e & He & Heq)|Hinner]; [left|right; exact Hinner].
+                exists e. split; [|exact Heq]. unfold mk_kid. cbn [s_ents]. apply filter_In. split; [exact He|].
+                apply Nat.eqb_eq. unfold ent_label. rewrite Heq. reflexivity.
+      + (* the query is below every entry of this subset *)
+        exists [], (kept s). cbn [fst snd]. unfold Lok, seq. cbn [last_opt fst snd].
+        split; [reflexivity|]. split; [|split; [constructor|split; [|reflexivity]]].
+        * unfold Rok. destruct (leftmost_first o _ s Ht0 I) as (x & Hx & Hl). rewrite Hx. eexists. split; [reflexivity|exact Hl].
+        * rewrite Forall_forall. intros a Ha. apply filter_In in Ha. apply Hall. tauto.
+      + exists (kept s), []. cbn [fst snd]. unfold Rok, seq. cbn [hd_opt fst snd].
+        split; [|split; [reflexivity|split; [|split; [constructor|rewrite app_nil_r; reflexivity]]]].
+        * unfold Lok. destruct (rightmost_last o _ s Ht0 I) as (x & Hx & Hl). rewrite Hx. eexists. split; [reflexivity|exact Hl].
+        * rewrite Forall_forall. intros a Ha. apply filter_In in Ha. apply Hall. tauto.
+  Qed.
+End SearchSplit.
